@@ -804,7 +804,7 @@ func run(c *driver.Ctx) {
 		}
 		t := kit.GenTopology(rng, kit.GenOptions{
 			UniqueProcessors: true, SharedReceivers: rng.Intn(2) == 0, MaxExtensions: 4, MaxPipelines: 5,
-			ConnModes: rng.Intn(2) == 0,
+			ConnModes: rng.Intn(2) == 0, CaseTwins: rng.Intn(5) == 0,
 		})
 		cs := &caseSpec{Class: "random", Topo: t, YAML: t.YAML()}
 		flow := t.Flow()
